@@ -575,11 +575,10 @@ theorem finishEb_post (opts : DecOpts) (s : EbAttState) (np : Nat) (hs : AttOK n
       rw [this]
     · exact post_fail
 
-theorem decodeAttributes_post (opts : DecOpts) (mesh : Mesh) (hlm : MeshLm mesh) :
-    Post (decodeAttributes opts mesh)
+theorem decodeAttributes_post (opts : DecOpts) (ver : Nat) (mesh : Mesh) (hlm : MeshLm mesh) :
+    Post (decodeAttributes opts ver mesh)
       (fun atts => (∀ a ∈ atts, a.valid mesh.numPoints = true) ∧ (atts ≠ [] → FacesOK mesh)) := by
   unfold decodeAttributes
-  apply post_bind_any; intro ver
   apply post_bind_any; intro numDecoders
   apply post_bind_any; intro decoders
   apply post_bind_any; intro _
@@ -676,9 +675,10 @@ theorem decodeEdgebreaker_post (opts : DecOpts) :
     Post (decodeEdgebreaker opts) (fun g => (∀ a ∈ g.atts, a.valid g.numPoints = true) ∧
       (g.atts ≠ [] → g.valid = true)) := by
   unfold decodeEdgebreaker
+  apply post_bind_any; intro ver
   refine post_bind decodeConnectivity_post (fun mesh hlm => ?_)
   apply post_bind_any; intro _
-  refine post_bind (decodeAttributes_post opts mesh hlm) (fun atts ha => ?_)
+  refine post_bind (decodeAttributes_post opts ver mesh hlm) (fun atts ha => ?_)
   apply post_pure
   refine ⟨ha.1, fun hne => ?_⟩
   simp only [Geometry.valid, Bool.and_eq_true]
